@@ -531,6 +531,11 @@ static int replay_C18(const Args& a)
       for (auto* e : es) { std::ostringstream os; Printer pp { lex, os }; try { pp << xpr_stmt(*e); } catch (const std::logic_error&) { } CLAUSE(true, "printing it as a statement completes or raises std::logic_error"); }
       const Type* ts[] = { &lex.get_decltype(*one), &lex.get_pointer(i), &lex.get_as_type(*one), &lex.get_qualified(lex.const_qualifier(), i), &lex.get_array(i, *one),
                            lex.make_class(*unit.global_region()), lex.make_union(*unit.global_region()), lex.make_enum(*unit.global_region(), Enum::Kind::Legacy), lex.make_namespace(*unit.global_region()), lex.make_closure(*unit.global_region()) };      // unnamed user-defined types included
+      // ... and user-defined types named by the type-id of themselves (how an unnamed class or union is named)
+      auto* anon_u = lex.make_union(*unit.global_region()); anon_u->id = *new impl::Type_id{ *anon_u };
+      auto* anon_c = lex.make_class(*unit.global_region()); anon_c->id = *new impl::Type_id{ *anon_c };
+      const Type* self_named[] = { anon_u, anon_c };
+      for (auto* t : self_named) { std::ostringstream os; Printer pp { lex, os }; try { pp << xpr_type(*t); } catch (const std::logic_error&) { } CLAUSE(true, "printing a self-named user-defined type completes or raises std::logic_error"); }
       for (auto* t : ts) { std::ostringstream os; Printer pp { lex, os }; try { pp << xpr_type(*t); } catch (const std::logic_error&) { } CLAUSE(true, "printing a type completes or raises std::logic_error"); }
    }
    if (want("bytes")) {
